@@ -40,6 +40,43 @@ def _dotted(n) -> str | None:
     return None
 
 
+def _nonempty_test(t):
+    """(X, True) for `X`, `X != ''`, `len(X) > 0`, `len(X) != 0`, `len(X)`, `bool(X)`; (X, False) for `not X`, `X == ''`,
+    `len(X) == 0`; None otherwise.  (X a string: all of these say whether X is non-empty.)"""
+    pol = True
+    while isinstance(t, ast.UnaryOp) and isinstance(t.op, ast.Not):
+        t, pol = t.operand, not pol
+    if isinstance(t, ast.Call) and _name(t.func) in ('len', 'bool') and len(t.args) == 1 and not t.keywords:
+        return t.args[0], pol
+    if isinstance(t, ast.Compare) and len(t.ops) == 1:
+        l, o, r = t.left, t.ops[0], t.comparators[0]
+        if _is_const(r, '') and isinstance(o, (ast.NotEq, ast.Eq)):
+            return l, pol == isinstance(o, ast.NotEq)
+        if isinstance(l, ast.Call) and _name(l.func) == 'len' and len(l.args) == 1 and _is_const(r, 0):
+            if isinstance(o, (ast.Gt, ast.NotEq)):
+                return l.args[0], pol
+            if isinstance(o, ast.Eq):
+                return l.args[0], not pol
+        return None
+    if isinstance(t, (ast.Name, ast.Attribute)):
+        return t, pol
+    return None
+
+
+def _tail_ifexp(stmts):
+    """`...; if c: return A` followed by (or with an else of) statements that end in `return B`  ->  `...; return A if c
+    else B`, from the end backwards (only where both sides are a bare return)."""
+    stmts = list(stmts)
+    for i, st in enumerate(stmts):
+        if isinstance(st, ast.If) and len(st.body) == 1 and isinstance(st.body[0], ast.Return) and st.body[0].value is not None:
+            tail = _tail_ifexp(list(st.orelse) + stmts[i + 1:])
+            if len(tail) == 1 and isinstance(tail[0], ast.Return) and tail[0].value is not None:
+                new = ast.Return(value=ast.IfExp(test=st.test, body=st.body[0].value, orelse=tail[0].value))
+                return stmts[:i] + [ast.fix_missing_locations(ast.copy_location(new, st))]
+            return stmts
+    return stmts
+
+
 class Tr:
     """Symbolic evaluation of string-normalising expressions to (base, [ops])."""
 
@@ -68,7 +105,7 @@ class Tr:
             self.err(fn, f'helper {fn.name} must take one argument')
         p = params[0]
         env = {p: (p, [])}
-        for st in fn.body:
+        for st in _tail_ifexp(fn.body):
             if isinstance(st, ast.Expr) and isinstance(st.value, ast.Constant):
                 continue   # docstring
             if isinstance(st, ast.If) and self._is_file_unwrap(st, p):
@@ -132,12 +169,15 @@ class Tr:
             if d is None:
                 self.err(e, 'unrecognised attribute expression')
             return d, []
-        # X + '/' if X else ''
+        # X + '/' if X else ''   (the test in any spelling of "X is not empty", either polarity)
         if isinstance(e, ast.IfExp):
-            if isinstance(e.body, ast.BinOp) and isinstance(e.body.op, ast.Add) and _is_const(e.body.right, '/') \
-                    and _is_const(e.orelse, '') and ast.dump(e.test) == ast.dump(e.body.left):
-                base, ops = self.expr(e.test, env, depth)
-                return base, ops + ['OAddSlash']
+            t = _nonempty_test(e.test)
+            if t is not None:
+                subject, a, b = (t[0], e.body, e.orelse) if t[1] else (t[0], e.orelse, e.body)
+                if isinstance(a, ast.BinOp) and isinstance(a.op, ast.Add) and _is_const(a.right, '/') \
+                        and _is_const(b, '') and ast.dump(subject) == ast.dump(a.left):
+                    base, ops = self.expr(subject, env, depth)
+                    return base, ops + ['OAddSlash']
             self.err(e, 'unrecognised conditional expression')
         if isinstance(e, ast.Call):
             f = e.func
@@ -145,9 +185,12 @@ class Tr:
             if fd in ('os.path.normpath', 'posixpath.normpath') and len(e.args) == 1 and not e.keywords:
                 base, ops = self.expr(e.args[0], env, depth)
                 return base, ops + ['ONorm']
-            if fd in ('self._clean_path', 'cls._clean_path') and len(e.args) == 1 and not e.keywords:
+            if isinstance(f, ast.Attribute) and isinstance(f.value, ast.Name) and self.cls is not None \
+                    and f.value.id in ('self', 'cls', self.cls.name) and len(e.args) == 1 and not e.keywords \
+                    and any(isinstance(n, ast.FunctionDef) and n.name == f.attr for n in self.cls.body):
+                # a string helper of the same class (e.g. _clean_path): its translated body
                 base, ops = self.expr(e.args[0], env, depth)
-                return base, ops + self.helper_ops(self.method(self.cls, '_clean_path'), depth + 1)
+                return base, ops + self.helper_ops(self.method(self.cls, f.attr), depth + 1)
             if isinstance(f, ast.Name) and f.id in self.funcs and len(e.args) == 1 and not e.keywords:
                 base, ops = self.expr(e.args[0], env, depth)
                 return base, ops + self.helper_ops(self.funcs[f.id], depth + 1)
@@ -321,7 +364,15 @@ def _inline_locals(fn: ast.FunctionDef) -> None:
                         continue
                     if isinstance(val, (ast.Dict, ast.List, ast.Set, ast.ListComp, ast.SetComp, ast.DictComp, ast.GeneratorExp)) \
                             or (isinstance(val, ast.Call) and _dotted(val.func) in ('list', 'dict', 'set')):
-                        continue      # a fresh mutable object: its identity matters
+                        # a fresh mutable object: its identity matters, unless its only use is one evaluation by the
+                        # simple statement that follows (then there is nothing to alias it)
+                        nxt = blk[i + 1] if i + 1 < len(blk) else None
+                        once = (isinstance(nxt, (ast.Assign, ast.AnnAssign, ast.Return, ast.Expr)) and _loads(nxt, tgt) == 1
+                                and _loads(fn, tgt) == 1
+                                and not any(isinstance(c, (ast.ListComp, ast.SetComp, ast.DictComp, ast.GeneratorExp, ast.Lambda)) and _loads(c, tgt)
+                                            for c in ast.walk(nxt)))
+                        if not once:
+                            continue
                     free = {n.id for n in ast.walk(val) if isinstance(n, ast.Name)} - _bound_in_comps(val)
                     if any(cnt.get(v, 0) > 1 for v in free) or tgt in free:
                         continue
@@ -370,16 +421,300 @@ def normalise(tr, cls, fn: ast.FunctionDef) -> ast.FunctionDef:
     return out
 
 
+# ------------------------------------------------------------------------------------------------ canonical module
+# Behaviour-preserving rewrites applied once to the whole parsed module before anything is matched (every one is an
+# equivalence of Python programs, none depends on what the code is about):
+#   (4) module-level constants (a name bound once at module level to a literal, never declared global) are inlined;
+#   (5) in a loop body `if c: continue` followed by R  ->  `if not c: R`  (`not` pushed into comparisons);
+#   (6) `yield from (E for T in I if C)` / `yield from [E for ...]`  ->  `for T in I: if C: yield E`;
+#   (7) `for t in I: a, b = t; ...` (t not used otherwise)  ->  `for a, b in I: ...`;
+#   (8) `D = {}` followed by `for T in I: [if C:] D[K] = V`  ->  `D = {K: V for T in I [if C]}`.
+_NEG = {ast.In: ast.NotIn, ast.NotIn: ast.In, ast.Eq: ast.NotEq, ast.NotEq: ast.Eq, ast.Is: ast.IsNot, ast.IsNot: ast.Is}
+
+
+def _negate(t):
+    if isinstance(t, ast.UnaryOp) and isinstance(t.op, ast.Not):
+        return t.operand
+    if isinstance(t, ast.Compare) and len(t.ops) == 1 and type(t.ops[0]) in _NEG:
+        return ast.copy_location(ast.Compare(left=t.left, ops=[_NEG[type(t.ops[0])]()], comparators=t.comparators), t)
+    return ast.copy_location(ast.UnaryOp(op=ast.Not(), operand=t), t)
+
+
+def _fn_bound(fn) -> set:
+    out = {a.arg for a in fn.args.args + fn.args.kwonlyargs + fn.args.posonlyargs}
+    for a in (fn.args.vararg, fn.args.kwarg):
+        if a is not None:
+            out.add(a.arg)
+    for n in ast.walk(fn):
+        if isinstance(n, ast.Name) and isinstance(n.ctx, (ast.Store, ast.Del)):
+            out.add(n.id)
+        elif isinstance(n, ast.ExceptHandler) and n.name:
+            out.add(n.name)
+        elif isinstance(n, (ast.Import, ast.ImportFrom)):
+            out.update((a.asname or a.name).split('.')[0] for a in n.names)
+        elif isinstance(n, (ast.FunctionDef, ast.ClassDef)) and n is not fn:
+            out.add(n.name)
+    return out
+
+
+def _module_consts(tree: ast.Module) -> dict:
+    cnt: dict[str, int] = {}
+    val: dict[str, ast.AST] = {}
+
+    def scan(stmts):
+        for st in stmts:
+            if isinstance(st, (ast.FunctionDef, ast.AsyncFunctionDef, ast.ClassDef)):
+                cnt[st.name] = cnt.get(st.name, 0) + 2
+                continue
+            for n in ast.walk(st):
+                if isinstance(n, ast.Name) and isinstance(n.ctx, (ast.Store, ast.Del)):
+                    cnt[n.id] = cnt.get(n.id, 0) + 1
+                elif isinstance(n, (ast.Import, ast.ImportFrom)):
+                    for a in n.names:
+                        k = (a.asname or a.name).split('.')[0]
+                        cnt[k] = cnt.get(k, 0) + 2
+            tgt = v = None
+            if isinstance(st, ast.Assign) and len(st.targets) == 1 and isinstance(st.targets[0], ast.Name):
+                tgt, v = st.targets[0].id, st.value
+            elif isinstance(st, ast.AnnAssign) and isinstance(st.target, ast.Name) and st.value is not None:
+                tgt, v = st.target.id, st.value
+            if tgt is not None and isinstance(v, ast.Constant) and isinstance(v.value, (str, bytes, int, bool, type(None))):
+                val[tgt] = v
+    scan(tree.body)      # only top-level statements: a conditional definition is not a constant
+    for n in ast.walk(tree):
+        if isinstance(n, (ast.Global, ast.Nonlocal)):
+            for k in n.names:
+                cnt[k] = cnt.get(k, 0) + 2
+    return {k: v for k, v in val.items() if cnt.get(k, 0) == 1}
+
+
+def _loads_outside(fn, name: str, inside) -> int:
+    ins = {id(n) for n in ast.walk(inside)}
+    return sum(1 for n in ast.walk(fn) if isinstance(n, ast.Name) and n.id == name and id(n) not in ins)
+
+
+def _mentions(e, dumped: str) -> bool:
+    return any(ast.dump(n) == dumped for n in ast.walk(e))
+
+
+def _canon_block(fn, blk: list, in_loop: bool) -> list:
+    """One block of statements, rewritten (recursively)."""
+    import copy
+    out: list = []
+    i = 0
+    blk = list(blk)
+    while i < len(blk):
+        st = blk[i]
+        # (6) yield from <comprehension>
+        if isinstance(st, ast.Expr) and isinstance(st.value, ast.YieldFrom) and isinstance(st.value.value, (ast.GeneratorExp, ast.ListComp)):
+            comp = st.value.value
+            names = {n.id for g in comp.generators for n in ast.walk(g.target) if isinstance(n, ast.Name)}
+            if not any(g.is_async for g in comp.generators) and all(_loads_outside(fn, nm, comp) == 0 for nm in names):
+                inner: ast.stmt = ast.Expr(value=ast.Yield(value=comp.elt))
+                for g in reversed(comp.generators):
+                    for c in reversed(g.ifs):
+                        inner = ast.If(test=c, body=[inner], orelse=[])
+                    inner = ast.For(target=copy.deepcopy(g.target), iter=g.iter, body=[inner], orelse=[])
+                    for n in ast.walk(inner.target):
+                        if isinstance(n, ast.Name):
+                            n.ctx = ast.Store()
+                blk[i] = st = ast.copy_location(inner, st)
+        # (8) D = {} ; for T in I: [if C:] D[K] = V
+        if isinstance(st, (ast.Assign, ast.AnnAssign)) and i + 1 < len(blk) and isinstance(blk[i + 1], ast.For):
+            tgt = st.targets[0] if isinstance(st, ast.Assign) and len(st.targets) == 1 else getattr(st, 'target', None)
+            lp = blk[i + 1]
+            v = st.value
+            empty = v is not None and ((isinstance(v, ast.Dict) and not v.keys) or (isinstance(v, ast.Call) and _name(v.func) == 'dict' and not v.args and not v.keywords))
+            if tgt is not None and _dotted(tgt) is not None and empty and not lp.orelse and len(lp.body) == 1:
+                b0 = lp.body[0]
+                cond = None
+                if isinstance(b0, ast.If) and not b0.orelse and len(b0.body) == 1:
+                    cond, b0 = b0.test, b0.body[0]
+                td = ast.dump(ast.parse(_dotted(tgt), mode='eval').body)
+                lnames = {n.id for n in ast.walk(lp.target) if isinstance(n, ast.Name)}
+                if (isinstance(b0, ast.Assign) and len(b0.targets) == 1 and isinstance(b0.targets[0], ast.Subscript)
+                        and _dotted(b0.targets[0].value) == _dotted(tgt)
+                        and not any(_mentions(x, td) for x in (b0.targets[0].slice, b0.value, lp.iter) + ((cond,) if cond is not None else ()))
+                        and all(_loads_outside(fn, nm, lp) == 0 for nm in lnames)):
+                    tcopy = copy.deepcopy(lp.target)
+                    comp = ast.DictComp(key=b0.targets[0].slice, value=b0.value,
+                                        generators=[ast.comprehension(target=tcopy, iter=lp.iter, ifs=[cond] if cond is not None else [], is_async=0)])
+                    new = copy.copy(st)
+                    new.value = ast.copy_location(comp, lp)
+                    out.append(new)
+                    i += 2
+                    continue
+        # (7) for t in I: a, b = t
+        if isinstance(st, ast.For) and isinstance(st.target, ast.Name) and st.body:
+            b0 = st.body[0]
+            t = st.target.id
+            if (isinstance(b0, ast.Assign) and len(b0.targets) == 1 and isinstance(b0.targets[0], ast.Tuple)
+                    and all(isinstance(x, ast.Name) for x in b0.targets[0].elts) and _name(b0.value) == t
+                    and _loads(fn, t) == 1 and len(st.body) > 1):
+                st = ast.copy_location(ast.For(target=b0.targets[0], iter=st.iter, body=st.body[1:], orelse=st.orelse), st)
+                blk[i] = st
+        # (5) if c: continue ; R   (only directly in a loop body)
+        if in_loop and isinstance(st, ast.If) and not st.orelse and len(st.body) == 1 and isinstance(st.body[0], ast.Continue) and blk[i + 1:]:
+            rest = _canon_block(fn, blk[i + 1:], True)
+            out.append(ast.copy_location(ast.If(test=_negate(st.test), body=rest, orelse=[]), st))
+            return out
+        # (9) try: A except E: <leaves> else: B   ->   try: A except E: <leaves>; B
+        if isinstance(st, ast.Try) and st.orelse and not st.finalbody and st.handlers \
+                and all(h.body and isinstance(h.body[-1], (ast.Continue, ast.Break, ast.Return, ast.Raise)) for h in st.handlers):
+            moved = list(st.orelse)
+            st.orelse = []
+            blk[i + 1:i + 1] = moved
+        # (12) for k in self.<dict>: ... self.<dict>[k] ...   ->   for k, v in self.<dict>.items(): ... v ...
+        if isinstance(st, ast.For) and isinstance(st.target, ast.Name):
+            it = st.iter
+            if isinstance(it, ast.Call) and isinstance(it.func, ast.Attribute) and it.func.attr == 'keys' and not it.args and not it.keywords:
+                it = it.func.value
+            d = _dotted(it)
+            if d is not None and d.startswith('self.') and d[5:] in DICTS.values():
+                k = st.target.id
+                is_sub = lambda n: isinstance(n, ast.Subscript) and _dotted(n.value) == d and _name(n.slice) == k and isinstance(n.ctx, ast.Load)
+                stores = any((isinstance(n, ast.Subscript) and _dotted(n.value) == d and not isinstance(n.ctx, ast.Load))
+                             or (isinstance(n, ast.Name) and n.id == k and isinstance(n.ctx, ast.Store)) for b in st.body for n in ast.walk(b))
+                if not stores and any(is_sub(n) for b in st.body for n in ast.walk(b)):
+                    vname = f'_V{st.lineno}'
+
+                    class _S(ast.NodeTransformer):
+                        def visit_Subscript(self, node):
+                            if is_sub(node):
+                                return ast.copy_location(ast.Name(id=vname, ctx=ast.Load()), node)
+                            return self.generic_visit(node)
+                    body = [_S().visit(b) for b in st.body]
+                    tgt2: ast.expr = ast.Name(id=vname, ctx=ast.Store())
+                    # `a, b = v` / `x = v` as the first use: bind it in the loop target
+                    holder = body
+                    while len(holder) == 1 and isinstance(holder[0], ast.If) and not holder[0].orelse and not _loads(holder[0].test, vname):
+                        holder = holder[0].body
+                    if holder and isinstance(holder[0], ast.Assign) and len(holder[0].targets) == 1 and _name(holder[0].value) == vname \
+                            and sum(_loads(b, vname) for b in body) == 1 \
+                            and all(isinstance(n, (ast.Name, ast.Tuple, ast.Store)) for n in ast.walk(holder[0].targets[0])) \
+                            and all(_loads_outside(fn, n.id, st) == 0 and sum(1 for m in ast.walk(fn) if isinstance(m, ast.Name) and m.id == n.id and isinstance(m.ctx, ast.Store)) == 1
+                                    for n in ast.walk(holder[0].targets[0]) if isinstance(n, ast.Name)) and len(holder) > 1:
+                        tgt2 = holder[0].targets[0]
+                        del holder[0]
+                    new_it = ast.Call(func=ast.Attribute(value=it, attr='items', ctx=ast.Load()), args=[], keywords=[])
+                    st = ast.copy_location(ast.For(target=ast.Tuple(elts=[ast.Name(id=k, ctx=ast.Store()), tgt2], ctx=ast.Store()),
+                                                   iter=new_it, body=body, orelse=st.orelse), st)
+                    blk[i] = st
+        # recurse
+        if not isinstance(st, (ast.FunctionDef, ast.AsyncFunctionDef, ast.ClassDef)):
+            loop = isinstance(st, (ast.For, ast.While))
+            for fld in ('body', 'orelse', 'finalbody'):
+                sub = getattr(st, fld, None)
+                if isinstance(sub, list) and sub and isinstance(sub[0], ast.stmt):
+                    setattr(st, fld, _canon_block(fn, sub, loop and fld == 'body'))
+            if isinstance(st, ast.Try):
+                for h in st.handlers:
+                    h.body = _canon_block(fn, h.body, False)
+        out.append(st)
+        i += 1
+    return out
+
+
+def _ssa(fn) -> None:
+    """(11) A local that is only ever assigned by plain statements of one block, never read before the first of them in
+    that block nor outside the block, gets a fresh name per assignment (`v = A; v = f(v)` -> `v = A; v_1 = f(v)`)."""
+    params = {a.arg for a in fn.args.args + fn.args.kwonlyargs + fn.args.posonlyargs} | {a.arg for a in (fn.args.vararg, fn.args.kwarg) if a}
+    stores: dict[str, int] = {}
+    for n in ast.walk(fn):
+        if isinstance(n, ast.Name) and isinstance(n.ctx, (ast.Store, ast.Del)):
+            stores[n.id] = stores.get(n.id, 0) + 1
+    for holder in ast.walk(fn):
+        for fld in ('body', 'orelse', 'finalbody'):
+            blk = getattr(holder, fld, None)
+            if not isinstance(blk, list) or not blk or not isinstance(blk[0], ast.stmt):
+                continue
+            tops: dict[str, list[int]] = {}
+            for i, st in enumerate(blk):
+                if isinstance(st, ast.Assign) and len(st.targets) == 1 and isinstance(st.targets[0], ast.Name):
+                    tops.setdefault(st.targets[0].id, []).append(i)
+            for v, idxs in tops.items():
+                if len(idxs) < 2 or stores.get(v, 0) != len(idxs) or v in params:
+                    continue
+                inside = sum(_loads(st, v) for st in blk)
+                if inside != _loads(fn, v) or any(_loads(st, v) for st in blk[:idxs[0]]) or _loads(blk[idxs[0]].value, v):
+                    continue
+                if any(v in _bound_in_comps(st) for st in blk):
+                    continue
+                ver = 0
+                for i, st in enumerate(blk):
+                    cur = v if ver == 0 else f'{v}_{ver}'
+                    if i in idxs:
+                        for n in ast.walk(st.value):
+                            if isinstance(n, ast.Name) and n.id == v:
+                                n.id = cur
+                        if i != idxs[0]:
+                            ver += 1
+                        st.targets[0].id = v if ver == 0 else f'{v}_{ver}'
+                    else:
+                        for n in ast.walk(st):
+                            if isinstance(n, ast.Name) and n.id == v:
+                                n.id = cur
+                stores[v] = 1
+
+
+class _KwToPos(ast.NodeTransformer):
+    """(10) f(a, q=b) -> f(a, b) for functions / classes defined in this module (by their own signature)."""
+
+    def __init__(self, tree):
+        self.sig = {}
+        for n in tree.body:
+            fn = None
+            if isinstance(n, ast.FunctionDef):
+                fn, skip = n, 0
+            elif isinstance(n, ast.ClassDef):
+                fn = next((m for m in n.body if isinstance(m, ast.FunctionDef) and m.name == '__init__'), None)
+                skip = 1
+            if fn is not None and not fn.args.vararg and not fn.args.posonlyargs and not fn.decorator_list:
+                self.sig[n.name] = [a.arg for a in fn.args.args][skip:]
+
+    def visit_Call(self, node):
+        self.generic_visit(node)
+        ps = self.sig.get(_name(node.func) or '')
+        if ps and node.keywords and all(k.arg is not None for k in node.keywords) and not any(isinstance(a, ast.Starred) for a in node.args):
+            args = list(node.args)
+            kws = {k.arg: k.value for k in node.keywords}
+            while len(args) < len(ps) and ps[len(args)] in kws:
+                args.append(kws.pop(ps[len(args)]))
+            if not kws:      # keyword arguments are evaluated in the order written: only reorder pure ones
+                if all(_pure(k.value) for k in node.keywords):
+                    node.args, node.keywords = args, []
+        return node
+
+
+def canonical_module(tree: ast.Module) -> ast.Module:
+    tree = _KwToPos(tree).visit(tree)
+    for fn in [n for n in ast.walk(tree) if isinstance(n, ast.FunctionDef)]:
+        _ssa(fn)
+    consts = _module_consts(tree)
+    for fn in [n for n in ast.walk(tree) if isinstance(n, ast.FunctionDef)]:
+        if consts:
+            bound = _fn_bound(fn)
+            mp = {k: v for k, v in consts.items() if k not in bound}
+            if mp:
+                sub = _Subst(mp)
+                fn.body = [sub.visit(st) for st in fn.body]
+                fn.args.defaults = [sub.visit(d) for d in fn.args.defaults]
+        fn.body = _canon_block(fn, fn.body, False)
+    ast.fix_missing_locations(tree)
+    return tree
+
+
 def _params(fn: ast.FunctionDef) -> list:
     return [a.arg for a in fn.args.args if a.arg not in ('self', 'cls')]
 
 
-def _paths(stmts, conds=(), env=None):
+def _paths(stmts, conds=(), env=None, raw=None):
     """Symbolic paths of a straight-line / if / try body: [(conditions, returned expression)], where locals assigned on
     the way are substituted into the returned expression.  `if c: return A` + fall-through is an if/else; a `try` whose
     handlers only re-raise is its body; a path that ends in `raise` is dropped.  None for any other statement."""
     import copy
     env = dict(env or {})
+    raw = dict(raw or {})
     out = []
     stmts = list(stmts)
     for i, st in enumerate(stmts):
@@ -387,6 +722,12 @@ def _paths(stmts, conds=(), env=None):
             continue
         if isinstance(st, ast.Return):
             v = None if st.value is None else _Subst(env).visit(copy.deepcopy(st.value))
+            # a call whose result is thrown away is not part of any recognised shape
+            used = set() if st.value is None else {n.id for n in ast.walk(st.value) if isinstance(n, ast.Name)}
+            for c, _ in conds:
+                used |= {n.id for n in ast.walk(c) if isinstance(n, ast.Name)}
+            if any(impure and k not in used for k, impure in raw.items()):
+                return None
             out.append((conds, v))
             return out
         if isinstance(st, ast.Raise):
@@ -394,21 +735,35 @@ def _paths(stmts, conds=(), env=None):
         if isinstance(st, (ast.Assign, ast.AnnAssign)):
             tgt = st.targets[0] if isinstance(st, ast.Assign) and len(st.targets) == 1 else getattr(st, 'target', None)
             if isinstance(tgt, ast.Name) and st.value is not None:
+                # `raw`: per local, does its value involve a call that is not known to be pure?  A local consumed by
+                # another local hands that on to the consumer.
+                impure = not _pure(st.value)
+                for n in ast.walk(st.value):
+                    if isinstance(n, ast.Name) and n.id in raw:
+                        impure = impure or raw[n.id]
+                        if n.id != tgt.id:
+                            raw[n.id] = False
+                if raw.get(tgt.id):
+                    return None                  # an unused impure value is overwritten
                 env[tgt.id] = _Subst(env).visit(copy.deepcopy(st.value))
+                raw[tgt.id] = impure
                 continue
             return None
         if isinstance(st, ast.If):
             test = _Subst(env).visit(copy.deepcopy(st.test))
             rest = stmts[i + 1:]
-            a = _paths(list(st.body) + rest, conds + ((test, True),), env)
-            b = _paths(list(st.orelse) + rest, conds + ((test, False),), env)
+            yes, no = True, False
+            while isinstance(test, ast.UnaryOp) and isinstance(test.op, ast.Not):     # `if not c: A else: B` = `if c: B else: A`
+                test, yes, no = test.operand, no, yes
+            a = _paths(list(st.body) + rest, conds + ((test, yes),), env, raw)
+            b = _paths(list(st.orelse) + rest, conds + ((test, no),), env, raw)
             if a is None or b is None:
                 return None
             return out + a + b
         if isinstance(st, ast.Try):
             if st.finalbody or not all(h.body and isinstance(h.body[-1], ast.Raise) for h in st.handlers):
                 return None
-            r = _paths(list(st.body) + list(st.orelse) + stmts[i + 1:], conds, env)
+            r = _paths(list(st.body) + list(st.orelse) + stmts[i + 1:], conds, env, raw)
             return None if r is None else out + r
         return None
     out.append((conds, None))
@@ -442,28 +797,10 @@ def _flat(stmts):
 
 
 def _key_uses(tr: Tr, fn: ast.FunctionDef, dict_attr: str, param: str):
-    """Ops applied to `param` wherever it is used as a key of self.<dict_attr> in fn (subscript or `in`)."""
-    env = {param: (param, [])}
+    """Ops applied to `param` wherever it is used as a key of self.<dict_attr> in fn (subscript or `in`), also inside
+    methods of the same class / module-level functions that fn hands the (possibly normalised) name to."""
     found = []
-    for st in _flat(fn.body):
-        if isinstance(st, ast.If) and isinstance(st.test, ast.Compare):
-            pass
-        consumed = False
-        if isinstance(st, (ast.Assign, ast.AnnAssign)):
-            # look for key uses inside the value first (with the environment before the assignment)
-            for node in ast.walk(st.value) if st.value is not None else ():
-                _collect(tr, node, dict_attr, env, found)
-            consumed = tr._stmt(st, env)
-        if not consumed:
-            # only the statement's own expressions, bodies are visited by _flat
-            for fld, val in ast.iter_fields(st):
-                if fld in ('body', 'orelse', 'finalbody', 'handlers'):
-                    continue
-                vals = val if isinstance(val, list) else [val]
-                for v in vals:
-                    if isinstance(v, ast.AST):
-                        for node in ast.walk(v):
-                            _collect(tr, node, dict_attr, env, found)
+    _key_uses_into(tr, fn, dict_attr, {param: (param, [])}, found, 0)
     if not found:
         tr.err(fn, f'{fn.name}: no use of self.{dict_attr} as a lookup')
     for base, ops in found:
@@ -476,12 +813,57 @@ def _key_uses(tr: Tr, fn: ast.FunctionDef, dict_attr: str, param: str):
     return first
 
 
-def _collect(tr, node, dict_attr, env, found):
+def _key_uses_into(tr: Tr, fn: ast.FunctionDef, dict_attr: str, env: dict, found: list, depth: int) -> None:
+    for st in _flat(fn.body):
+        consumed = False
+        if isinstance(st, (ast.Assign, ast.AnnAssign)):
+            # look for key uses inside the value first (with the environment before the assignment)
+            for node in ast.walk(st.value) if st.value is not None else ():
+                _collect(tr, node, dict_attr, env, found, depth, fn)
+            consumed = tr._stmt(st, env)
+        if not consumed:
+            # only the statement's own expressions, bodies are visited by _flat
+            for fld, val in ast.iter_fields(st):
+                if fld in ('body', 'orelse', 'finalbody', 'handlers'):
+                    continue
+                vals = val if isinstance(val, list) else [val]
+                for v in vals:
+                    if isinstance(v, ast.AST):
+                        for node in ast.walk(v):
+                            _collect(tr, node, dict_attr, env, found, depth, fn)
+
+
+def _collect(tr, node, dict_attr, env, found, depth=0, owner=None):
     if isinstance(node, ast.Subscript) and _dotted(node.value) == f'self.{dict_attr}':
         found.append(tr.expr(node.slice, env))
     if isinstance(node, ast.Compare) and len(node.ops) == 1 and isinstance(node.ops[0], (ast.In, ast.NotIn)) \
             and _dotted(node.comparators[0]) == f'self.{dict_attr}':
         found.append(tr.expr(node.left, env))
+    # a helper that is handed a value derived from the name: its own key uses count, with its parameter bound to that value
+    if isinstance(node, ast.Call) and depth < 3 and not any(isinstance(a, ast.Starred) for a in node.args) \
+            and all(k.arg is not None for k in node.keywords):
+        helper = _Inline(tr, tr.cls)._resolve(node.func)
+        if helper is not None and helper is not owner and helper.name not in LOOKUP_METHODS:
+            ps = [a.arg for a in helper.args.args]
+            deco = {_dotted(d) for d in helper.decorator_list}
+            if ps and ps[0] in ('self', 'cls') and 'staticmethod' not in deco:
+                ps = ps[1:]
+            bind = dict(zip(ps, node.args))
+            bind.update({k.arg: k.value for k in node.keywords if k.arg in ps})
+            env2 = {}
+            derived = False
+            for k, a in bind.items():
+                try:
+                    v = tr.expr(a, env)
+                except TranslateError:
+                    v = None
+                if v is not None and any(e is not None and e[0] == v[0] for e in env.values()):
+                    env2[k] = v          # derived from the name the caller was given
+                    derived = True
+                else:
+                    env2[k] = None
+            if derived:
+                _key_uses_into(tr, helper, dict_attr, env2, found, depth + 1)
 
 
 def _store_ops(tr: Tr, cls: ast.ClassDef, dict_attr: str):
@@ -495,6 +877,17 @@ def _store_ops(tr: Tr, cls: ast.ClassDef, dict_attr: str):
         if tgt is not None and _dotted(tgt) == f'self.{dict_attr}':
             if not isinstance(val, ast.DictComp) or len(val.generators) != 1:
                 tr.err(st, f'self.{dict_attr} is not built by one dict comprehension')
+            g = val.generators[0]
+            # every stored file takes part: the source is enumerated as it is, the only filter drops directory entries
+            for n in ast.walk(g.iter):
+                if isinstance(n, (ast.Subscript, ast.BinOp, ast.Compare, ast.Lambda, ast.IfExp, ast.BoolOp, ast.comprehension)) \
+                        or (isinstance(n, ast.Call) and (n.keywords or (n.args and _dotted(n.func) not in ('dict', 'list', 'tuple', 'iter')))):
+                    tr.err(st, f'self.{dict_attr}: the files are not enumerated as they are stored ({ast.unparse(g.iter)[:60]})')
+            for c in g.ifs:
+                t = c.operand if isinstance(c, ast.UnaryOp) and isinstance(c.op, ast.Not) else None
+                if not (isinstance(t, ast.Call) and isinstance(t.func, ast.Attribute) and t.func.attr == 'endswith' and len(t.args) == 1
+                        and _is_const(t.args[0], '/') and (_dotted(t.func.value) or '').split('.')[-1] == 'filename'):
+                    tr.err(st, f'self.{dict_attr}: unrecognised filter {ast.unparse(c)[:60]} on the stored files')
             base, ops = tr.expr(val.key, {})
             # the stored name: Virtual `filename`, Zip `info.filename`, VPK `file.filename`
             if base.split('.')[-1] != 'filename':
@@ -690,6 +1083,9 @@ def _base_and_dunders(tr: Tr, side: dict) -> None:
         b = _body(fn)
         ps = _params(fn)
         ok = False
+        pth = _paths(b)
+        if pth is not None and len(pth) == 1 and not pth[0][0] and pth[0][1] is not None:
+            b = [ast.Return(value=pth[0][1])]       # straight-line locals folded into the returned expression
         if len(b) == 1 and isinstance(b[0], (ast.Return, ast.Expr)):
             v = b[0].value
             if isinstance(v, ast.YieldFrom):
@@ -870,6 +1266,18 @@ def _chain(tr: Tr, side: dict) -> list[str]:
     # add_sys
     fn = normalise(tr, cls, tr.method(cls, 'add_sys'))
     stmts = _else_after_return(_body(fn))
+    if len(stmts) == 1 and isinstance(stmts[0], ast.Expr):
+        # one statement with a conditional expression on a flag  ->  the statement once per branch
+        ifx = [n for n in ast.walk(stmts[0]) if isinstance(n, ast.IfExp)]
+        if len(ifx) == 1 and isinstance(ifx[0].test, ast.Name):
+            import copy
+
+            def pick(which):
+                class _P(ast.NodeTransformer):
+                    def visit_IfExp(self, node):
+                        return self.visit(node.body if which else node.orelse)
+                return _P().visit(copy.deepcopy(stmts[0]))
+            stmts = [ast.copy_location(ast.If(test=ifx[0].test, body=[pick(True)], orelse=[pick(False)]), stmts[0])]
     aps = _params(fn)
     if len(aps) < 2:
         tr.err(fn, 'add_sys: unrecognised signature')
@@ -888,6 +1296,8 @@ def _chain(tr: Tr, side: dict) -> list[str]:
         fd = _dotted(st.value.func)
         if fd == 'self.systems.append' and len(st.value.args) == 1:
             return 'Append', 'append'
+        if fd == 'self.systems.insert' and len(st.value.args) == 2 and ast.unparse(st.value.args[0]) == 'len(self.systems)':
+            return 'Append', 'insert(len(self.systems))'
         if fd == 'self.systems.insert' and len(st.value.args) == 2 and isinstance(st.value.args[0], ast.Constant) \
                 and isinstance(st.value.args[0].value, int) and st.value.args[0].value >= 0:
             return f'(InsertAt {st.value.args[0].value})', f'insert({st.value.args[0].value})'
@@ -1008,6 +1418,19 @@ def _dedup(tr: Tr, fn: ast.FunctionDef):
     where K is a normalisation of file.path.  Anything else fails closed."""
     stmts = [s for s in fn.body if not (isinstance(s, ast.Expr) and isinstance(s.value, ast.Constant))]
     ps = _params(fn)
+    # d = {K: file for file in self.walk_folder_repeat(folder)}; return iter(d.values())  -  the same as d[K] = file in a loop
+    if len(ps) == 1 and len(stmts) == 2 and isinstance(stmts[0], (ast.Assign, ast.AnnAssign)) and isinstance(stmts[0].value, ast.DictComp):
+        dc = stmts[0].value
+        coll = _name(stmts[0].target if isinstance(stmts[0], ast.AnnAssign) else stmts[0].targets[0])
+        g = dc.generators[0]
+        if (coll is not None and len(dc.generators) == 1 and not g.ifs and isinstance(g.target, ast.Name) and _name(dc.value) == g.target.id
+                and ast.unparse(g.iter) in (f'self.walk_folder_repeat({ps[0]})', f'self.walk_folder_repeat(folder={ps[0]})')
+                and ast.unparse(stmts[1]) in (f'return iter({coll}.values())', f'return {coll}.values()', f'yield from {coll}.values()')):
+            kb, ko = tr.expr(dc.key, {})
+            if kb != f'{g.target.id}.path':
+                tr.err(stmts[0], f'walk_folder: de-duplication key derived from {kb}, not from {g.target.id}.path')
+            return ko, 'DedupOverwrite', '{key: file for file in ...} (a later member overwrites the File kept for a name)'
+        tr.err(fn, 'FileSystemChain.walk_folder: unrecognised dict comprehension')
     if not (len(ps) == 1 and len(stmts) in (2, 3) and isinstance(stmts[0], (ast.Assign, ast.AnnAssign)) and isinstance(stmts[1], ast.For)
             and ast.unparse(stmts[1].iter) in (f'self.walk_folder_repeat({ps[0]})', f'self.walk_folder_repeat(folder={ps[0]})')
             and isinstance(stmts[1].target, ast.Name) and not stmts[1].orelse):
@@ -1179,8 +1602,9 @@ def _ctest(tr: Tr, t, fv: str, a: str, b: str) -> str:
 class _FileInfoSrc(ast.NodeTransformer):
     """self._get_data(A) / A._data / self.<dict>[...]  ->  the name _FI (where the FileInfo comes from does not matter)."""
 
-    def __init__(self, A, dict_attr):
+    def __init__(self, A, dict_attr, tr=None, cls=None, depth=0):
         self.A, self.dict_attr, self.n = A, dict_attr, 0
+        self.tr, self.cls, self.depth = tr, cls, depth
 
     def _hit(self, node):
         self.n += 1
@@ -1189,6 +1613,20 @@ class _FileInfoSrc(ast.NodeTransformer):
     def visit_Call(self, node):
         if _dotted(node.func) in ('self._get_data', 'cls._get_data') and len(node.args) == 1 and _name(node.args[0]) == self.A:
             return self._hit(node)
+        # a helper of the same class handed the name, every path of which returns such a FileInfo source
+        if self.tr is not None and self.depth < 3 and len(node.args) == 1 and not node.keywords and _name(node.args[0]) == self.A:
+            helper = _Inline(self.tr, self.cls)._resolve(node.func)
+            if helper is not None and helper.name not in LOOKUP_METHODS:
+                ps = [a.arg for a in helper.args.args]
+                deco = {_dotted(d) for d in helper.decorator_list}
+                if ps and ps[0] in ('self', 'cls') and 'staticmethod' not in deco:
+                    ps = ps[1:]
+                paths = _paths(_body(normalise(self.tr, self.cls, helper))) if len(ps) == 1 else None
+                if paths and all(e is not None for _, e in paths):
+                    import copy
+                    sub = _FileInfoSrc(ps[0], self.dict_attr, self.tr, self.cls, self.depth + 1)
+                    if all(_name(sub.visit(copy.deepcopy(e))) == '_FI' for _, e in paths):
+                        return self._hit(node)
         return self.generic_visit(node)
 
     def visit_Attribute(self, node):
@@ -1223,7 +1661,7 @@ def _vpk_content(tr: Tr, cls, dict_attr: str, side: dict) -> list[str]:
                     and _name(e.args[0]) == ps[0]:
                 got.add(res['open_bin'])
                 continue
-            src = _FileInfoSrc(ps[0], dict_attr)
+            src = _FileInfoSrc(ps[0], dict_attr, tr, cls)
             e = src.visit(e)
             names = {n.id for n in ast.walk(e) if isinstance(n, ast.Name) and n.id not in ('self', 'cls', cls.name)}
             if names != {'_FI'}:
@@ -1243,6 +1681,7 @@ def _raw(tr: Tr, side: dict) -> list[str]:
     cls = tr.classes.get('RawFileSystem')
     if cls is None:
         tr.err(tr.tree, 'RawFileSystem not found')
+    tr.cls = cls
 
     def resolve_ops(mname: str, param: str, os_call: str) -> list[str]:
         fn = tr.method(cls, mname)
@@ -1308,7 +1747,7 @@ def _raw(tr: Tr, side: dict) -> list[str]:
 
 
 def translate() -> tuple[str, dict]:
-    tree = ast.parse(src_text('filesys.py'))
+    tree = canonical_module(ast.parse(src_text('filesys.py')))
     tr = Tr(tree, 'filesys.py')
     side: dict = {'backends': {}}
     lines = ['(* generated by translate/c19_walk.py from src/srctools/filesys.py - do not edit *)',
